@@ -170,7 +170,7 @@ class WsgiEdge(EdgeServer, WsgiServer):
         else:
             self.uri_pattern = uri_pattern
         if listener:
-            ssl_args = {'ssl_context': context}
+            ssl_args = {'ssl_context': context} if context else None
             self.server = self.build_server(listener, pool, ssl_args)
         else:
             self.server = None
